@@ -625,6 +625,120 @@ def finished_producer_lines(ctx):
                 elif got != "ok":
                     ctx.fail("a model with a plug-in result of an undeclared kind: %s" % got, desc)
 
+LINELESS_PLUGIN_SRC = """
+from mpilot import params
+from mpilot.commands import Command
+from mpilot.exceptions import MPilotError, ProgramError
+
+
+class SensorOffline(ProgramError):
+    \"\"\" a library's own error class; raised without a line, like the data-file errors of the csv reader \"\"\"
+
+
+class Probe(Command):
+    \"\"\" fails while executing: How = bare (an error without a line), own (an error carrying the command's line), arg (the argument's line), general
+    (an MPilotError, which has no line at all) \"\"\"
+    inputs = {"How": params.StringParameter(), "Of": params.ResultParameter(params.DataParameter(), required=False)}
+    output = params.DataParameter()
+
+    def execute(self, **kw):
+        how = kw["How"]
+        if how == "bare":
+            raise SensorOffline()
+        if how == "own":
+            raise SensorOffline(lineno=self.lineno)
+        if how == "arg":
+            raise SensorOffline(lineno=self.argument_lines.get("How"))
+        raise MPilotError("the probe does not answer")
+"""
+
+
+def lineless_runtime_lines(ctx):
+    """run-time errors that the failing command raises WITHOUT a line (problems found in a data file: empty, header missing, a cell that is no number; a number of
+    weights that does not match; a plug-in's own error class) in a command that other commands consume, one to three levels below the command Program.run()
+    starts, in several file orders: the error may carry no line (then the tool marks nothing), but a line it carries - through the library and as marked by the
+    command-line tool - is a line of the failing command (its own or one of its arguments'), never one of a consumer's or of a neighbour's"""
+    import contextlib, io, itertools, types
+    from click.testing import CliRunner
+    from mpilot.cli.mpilot import main
+    from mpilot.program import Program
+    rng = ctx.rng
+    name = "mpverif_c11_lineless"
+    if name not in sys.modules:
+        m = types.ModuleType(name)
+        sys.modules[name] = m
+        exec(compile(LINELESS_PLUGIN_SRC, name, "exec"), m.__dict__)
+    tmp = common.tmpdir("mpv_c11n_")
+    for fn, text in (("good.csv", "a,b\n1,4\n2,5\n3,6\n"), ("empty.csv", ""), ("text.csv", "a,b\n1,4\nn/a,5\n3,6\n"), ("hole.csv", "a,b\n1,4\n,5\n3,6\n"), ("short.csv", "a,b\n1,4\n2\n")):
+        open(os.path.join(tmp, fn), "w").write(text)
+    try:
+        runner = CliRunner(mix_stderr=False)
+    except TypeError:
+        runner = CliRunner()
+    read = lambda fn, field: ["Bad = EEMSRead(", "", '    InFileName = "%s",' % fn, "    # the field", "    InFieldName = %s" % field, ")"]
+    # (what the failing command delivers, its lines, the expected error class or None = whatever it raises, offsets of its command / argument lines)
+    setups = [("raw", read("empty.csv", "a"), "EmptyDataFile", [0, 2, 4]), ("raw", read("good.csv", "nosuchfield"), "InvalidDataFile", [0, 2, 4]),
+              ("raw", read("text.csv", "a"), "InvalidDataFile", [0, 2, 4]), ("raw", read("hole.csv", "a"), "InvalidDataFile", [0, 2, 4]), ("raw", read("short.csv", "b"), None, [0, 2, 4]),
+              ("raw", ["Bad = WeightedSum(", "    InFieldNames = [Good, Good],", "", "    Weights = [1, 2, 3]", ")"], "MismatchedWeights", [0, 1, 3]),
+              ("raw", ["Bad = WeightedMean(InFieldNames = [Good,", "   Good, Good],", "    Weights = [1]", ")"], "MismatchedWeights", [0, 2]),
+              ("fuzzy", ["Bad = FuzzyWeightedUnion(", "    InFieldNames = [FGood, FGood],", "    Weights = [", "       0.5]", ")"], "MismatchedWeights", [0, 1, 2]),
+              ("raw", ["Bad = Probe(", "    How = bare", ")"], "SensorOffline", [0, 1]), ("raw", ["Bad = Probe(How = general, Of = Good)"], "MPilotError", [0]),
+              ("raw", ["Bad = Probe(", "", "    How = own)"], "SensorOffline", [0, 2]), ("raw", ["Bad = Probe(Of = Good,", "", "    How = arg)"], "SensorOffline", [0, 2])]
+    consumers = {
+        "raw": {"c1": ["C1 = Sum(", "    InFieldNames = [Good,", "        Bad]", ")"], "c2": ["C2 = CvtToFuzzy(InFieldName = C1,", "   TrueThreshold = 9, FalseThreshold = 0)"]},
+        "fuzzy": {"c1": ["C1 = FuzzyNot(", "    InFieldName = Bad", ")"], "c2": ["C2 = FuzzyUnion(", "    InFieldNames = [C1, FGood]", ")"]}}
+    for si, (kind, bad, err, own) in enumerate(setups):
+        blocks = {"good": ['Good = EEMSRead(InFileName = "good.csv",', "    InFieldName = a)"], "fgood": ["FGood = CvtToFuzzy(InFieldName = Good)"], "bad": bad,
+                  "side": ["Side = Copy(", "    InFieldName = Good", ")"], "out": ["Out = EEMSWrite(", '    OutFileName = "out%d.csv",' % si, "    OutFieldNames = [FGood, C2]", ")"]}
+        blocks.update(consumers[kind])
+        # depth of the consumers below the failing command: only c1 / c1 <- c2 / c1 <- c2 <- the writer
+        for depth in (1, 2, 3):
+            used = ["good", "fgood", "bad", "side", "c1"] + ["c2"][:depth - 1] + ["out"][:depth - 2]
+            orders = [used, [b for b in reversed(used)]] + [rng.sample(used, len(used)) for _ in range(2 if not ctx.thorough else 10)]
+            for oi, order in enumerate(orders):
+                lines, allowed = [], None
+                for b in order:
+                    lines += [rng.choice(["", "# note", "   "]) for _ in range(rng.randrange(0, 3))]
+                    if b == "bad":
+                        allowed = [len(lines) + 1 + o for o in own]
+                    lines += blocks[b]
+                src = "\n".join(lines) + "\n"
+                libs = progrun.EEMS_LIBS + (name,)
+                try:
+                    with contextlib.redirect_stdout(io.StringIO()):
+                        Program.from_source(src, libraries=libs, working_dir=tmp).run()
+                    got = "ok"
+                except Exception as e:
+                    got = "mp:MPilotError:-" if type(e).__name__ == "MPilotError" else progrun.classify(e)
+                ctx.case("lineless %s" % src, sample={"source": src, "outcome": got, "lines_of_the_failing_command": allowed})
+                ctx.count("lineless_runtime_cases")
+                ctx.count("lineless_runtime_line:" + ("none" if got.split(":")[-1] in ("-", "~") else "own"))
+                desc = {"source": src, "libraries": list(libs), "files": "good.csv = a,b / 1,4 / 2,5 / 3,6; empty.csv is empty; text.csv holds n/a, hole.csv an empty cell, short.csv a short row",
+                        "lines_of_the_failing_command_and_its_arguments": allowed}
+                parts = got.split(":")
+                if parts[0] not in ("mp", "unexpected") or (err is not None and parts[1] != err):
+                    ctx.fail("a model whose command Bad fails while running: expected %s, got %s" % (err, got), desc)
+                elif parts[2] not in ("-", "~") and int(parts[2]) not in allowed:
+                    ctx.fail("%s is raised by the command on lines %r (consumed %d level(s) deep) and carries line %s: %r" % (parts[1], allowed, depth, parts[2], lines[int(parts[2]) - 1] if 0 < int(parts[2]) <= len(lines) else None), desc)
+                # the command-line tool on the same file (the built-in commands only: the tool of the csv library): whatever it marks is a line of the failing command
+                if "Probe" in src or oi > 1:
+                    continue
+                path = os.path.join(tmp, "m%d.mpt" % (oi % 2))
+                with open(path, "w") as f:
+                    f.write(src)
+                res = runner.invoke(main, ["eems-csv", path])
+                try:
+                    err_text = res.stderr
+                except ValueError:
+                    err_text = res.output
+                marked = [l[4:] for l in (err_text or "").split("\n") if l.startswith("--> ")]
+                ctx.count("lineless_runtime_cli")
+                desc = dict(desc, stderr=(err_text or "")[-600:], exit=res.exit_code)
+                if res.exit_code == 0 or (res.exception is not None and not isinstance(res.exception, SystemExit)):
+                    ctx.fail("the command-line tool on a model whose command Bad fails while running: exit %s, %s" % (res.exit_code, type(res.exception).__name__), desc)
+                elif marked and (len(marked) != 1 or marked[0] not in [lines[k - 1] for k in allowed]):
+                    ctx.fail("the command-line tool marks %r; the command that failed is on lines %r: %r" % (marked[:3], allowed, [lines[k - 1] for k in allowed]), desc)
+
 
 def run(ctx):
     ctx.check_proofs(["MPilot.Props.C11", "MPilot.Props.C11Exact", "MPilot.Props.C11Nodes", "MPilot.Props.C11End", "MPilot.Props.C13Cli"])
@@ -662,6 +776,7 @@ def run(ctx):
     fault_lines(ctx, model)
     cycle_lines(ctx)
     runtime_lines(ctx)
+    lineless_runtime_lines(ctx)
     finished_producer_lines(ctx)
     large_sources(ctx)
     cli_marks(ctx, ctx.budget(30, 600), model)
